@@ -66,7 +66,7 @@ impl Monitor for C04 {
         if s.ok() {
             let states = s.states();
             for (i, ix) in s.tx.ixs.iter().enumerate() {
-                if ix.tag != "borrow" && ix.tag != "withdraw" {
+                if ix.tag != "borrow" && !super::is_withdraw(ix.tag) {
                     continue;
                 }
                 let Some(acc_key) = ix_user_account(ix) else { continue };
@@ -168,7 +168,7 @@ impl Monitor for C04 {
             }
         } else if let (Err(e), Some(fs)) = (&s.out.result, &s.out.failed_state) {
             let Some(ix) = s.tx.ixs.get(e.ix_index) else { return };
-            if ix.tag != "borrow" && ix.tag != "withdraw" {
+            if ix.tag != "borrow" && !super::is_withdraw(ix.tag) {
                 return;
             }
             let Some(acc_key) = ix_user_account(ix) else { return };
